@@ -515,7 +515,11 @@ func sweepRuns(zone string, keep func(i int) bool) []*run {
 		if wb.Minute() != 59 {
 			mins = append(mins, it(wb.Minute()))
 		}
-		hours := uniq([]string{it(wb.Hour()), it(wa.Hour()), it((wa.Hour() + 1) % 24), it((wb.Hour() + 23) % 24), "12", "*"})
+		hs := []string{it(wb.Hour()), it(wa.Hour()), it((wa.Hour() + 1) % 24), it((wb.Hour() + 23) % 24), "12", "*"}
+		if tr.atMidnight() {
+			hs = append(hs, "0", "1", "9", "23") // the transition day itself must be examined, from its first hour to its last
+		}
+		hours := uniq(hs)
 		doms := uniq([]string{"*", it(wb.Day()), it(wa.Day()), it(wa.AddDate(0, 0, 1).Day())})
 		months := uniq([]string{"*", it(int(wb.Month())), it(int(wa.Month()))})
 		dows := []string{"*", it(int(wa.Weekday()))}
